@@ -366,6 +366,11 @@ func (x *Explorer) applyContract(st *State, f *Frame, con *Contract, allArgs []V
 				// a newly allocated object (or nil): distinct from everything that exists
 				isNil := st.freshSym(hint+"_nil", SBool)
 				vals[i] = VPtr{Ref: Ite(isNil, IntLit(0), st.newRef()), Root: pt.Elem()}
+			} else if _, ok := sig.Results().At(i).Type().Underlying().(*types.Interface); ok {
+				isNil := st.freshSym(hint+"_nil", SBool)
+				tag := st.freshInt(hint + "_tag")
+				st.addFact(Gt(tag, IntLit(0)))
+				vals[i] = VIface{Tag: Ite(isNil, IntLit(0), tag), Val: Ite(isNil, IntLit(0), st.newRef())}
 			}
 		}
 	}
